@@ -73,12 +73,13 @@ Lemma preemph_rng_l : forall c ip ax d x r, axis_ok ax = true ->
 Proof. intros. now destruct (preemph_run_all O G c ip ax d x r H) as (_ & A & _). Qed.
 
 (* Dither.apply: float64 sum of the signal and a noise vector that is a
-   function of (coeff, generator state, length) only *)
+   function of (coeff, generator state, length) only; rounded to the nearest
+   integer before the cast back when the dtype is an integer one *)
 Lemma dither_values_l : forall c ip ax d x r, axis_ok ax = true ->
   let s := run O G c ip ax dither_prog (Build_arr d x) r in
   s_err s = false /\
-  out_arr s = Some (Build_arr d (conv O F64 d
-     (zipw (o_add O) (conv O d F64 x) (noise_of O c (g_draw G r (length x)))))) /\
+  out_arr s = Some (Build_arr d (conv O F64 d (rint_if_int O d
+     (zipw (o_add O) (conv O d F64 x) (noise_of O c (g_draw G r (length x))))))) /\
   s_rng s = g_adv G r (length x).
 Proof. intros. destruct (dither_run_all O G c ip ax d x r H) as (A & C & _ & B & _). now repeat split. Qed.
 
@@ -121,9 +122,9 @@ Lemma dither_noise_function_of_state_l : forall c ip ip' ax ax' d d' x x' r,
   axis_ok ax = true -> axis_ok ax' = true -> length x = length x' ->
   exists nz, length nz = length x /\
     out_arr (run O G c ip ax dither_prog (Build_arr d x) r) =
-      Some (Build_arr d (conv O F64 d (zipw (o_add O) (conv O d F64 x) nz))) /\
+      Some (Build_arr d (conv O F64 d (rint_if_int O d (zipw (o_add O) (conv O d F64 x) nz)))) /\
     out_arr (run O G c ip' ax' dither_prog (Build_arr d' x') r) =
-      Some (Build_arr d' (conv O F64 d' (zipw (o_add O) (conv O d' F64 x') nz))).
+      Some (Build_arr d' (conv O F64 d' (rint_if_int O d' (zipw (o_add O) (conv O d' F64 x') nz)))).
 Proof.
   intros c ip ip' ax ax' d d' x x' r H H' L.
   exists (noise_of O c (g_draw G r (length x))). split.
@@ -187,13 +188,15 @@ End Clauses.
 Section RingInst.
 Variable R : Type.
 Variables (rO rI : R) (radd rmul rsub : R -> R -> R) (ropp : R -> R).
+Variable rrint : R -> R.              (* rounding to the nearest integer: no law needed *)
 Hypothesis Rth : ring_theory rO rI radd rmul rsub ropp (@eq R).
 Add Ring Rring : Rth.
 Context {RS : Type}.
 Variable G : rngm R RS.
 
 Definition ring_ops : ops R :=
-  {| o_zero := rO; o_add := radd; o_sub := rsub; o_mul := rmul; o_cast := fun _ _ x => x |}.
+  {| o_zero := rO; o_add := radd; o_sub := rsub; o_mul := rmul; o_rint := rrint;
+     o_cast := fun _ _ x => x |}.
 
 Lemma conv_ring : forall a b l, conv ring_ops a b l = l.
 Proof. intros. unfold conv. destruct (dtype_eqb a b); [reflexivity|]. cbn. apply map_id. Qed.
@@ -205,12 +208,17 @@ Proof.
   f_equal; [ring|]. apply IH. lia.
 Qed.
 
-(* coefficient 0 is the identity (for every length, dtype, in_place, state) *)
+(* coefficient 0 is the identity (for every length, in_place, state; float
+   dtypes, and integer dtypes whose samples rounding leaves alone) *)
 Lemma dither_zero_identity_l : forall ip ax d x r, axis_ok ax = true ->
+  is_float d = true \/ Forall (fun v => rrint v = v) x ->
   out_arr (run ring_ops G rO ip ax dither_prog (Build_arr d x) r) = Some (Build_arr d x).
 Proof.
-  intros. destruct (dither_values_l ring_ops G rO ip ax d x r H) as (_ & A & _).
-  rewrite A, !conv_ring, zipw_add_zero_noise; [reflexivity|apply g_draw_length].
+  intros ip ax d x r H Hd. destruct (dither_values_l ring_ops G rO ip ax d x r H) as (_ & A & _).
+  rewrite A, !conv_ring, zipw_add_zero_noise by apply g_draw_length.
+  f_equal. f_equal. unfold rint_if_int. destruct (is_float d); [reflexivity|].
+  destruct Hd as [Hd|Hd]; [discriminate|]. cbn [o_rint ring_ops]. clear A.
+  induction Hd as [|v l Hv _ IH]; [reflexivity|]. cbn [map]. now rewrite Hv, IH.
 Qed.
 
 Lemma noise_ring : forall c g, noise_of ring_ops c g = map (rmul c) g.
@@ -220,11 +228,14 @@ Proof. intros. unfold noise_of. apply map_ext. intros. cbn. ring. Qed.
    linear in coeff, g depends neither on coeff nor on the signal *)
 Lemma dither_linear_l : forall c ip ax d x r, axis_ok ax = true ->
   out_arr (run ring_ops G c ip ax dither_prog (Build_arr d x) r) =
-  Some (Build_arr d (zipw radd x (map (rmul c) (g_draw G r (length x))))).
+  Some (Build_arr d (rint_if_int ring_ops d (zipw radd x (map (rmul c) (g_draw G r (length x)))))).
 Proof.
   intros. destruct (dither_values_l ring_ops G c ip ax d x r H) as (_ & A & _).
   now rewrite A, !conv_ring, noise_ring.
 Qed.
+
+Lemma rint_float : forall d l, is_float d = true -> rint_if_int ring_ops d l = l.
+Proof. intros d l H. unfold rint_if_int. now rewrite H. Qed.
 
 Lemma zipw_sub_add : forall x n, length n = length x -> zipw rsub (zipw radd x n) x = n.
 Proof.
@@ -234,26 +245,27 @@ Qed.
 
 (* output - input is the same vector for any two signals of one length *)
 Lemma dither_signal_independent_l : forall c ip ip' ax ax' d d' x x' r y y',
+  is_float d = true -> is_float d' = true ->
   axis_ok ax = true -> axis_ok ax' = true -> length x = length x' ->
   out_arr (run ring_ops G c ip ax dither_prog (Build_arr d x) r) = Some y ->
   out_arr (run ring_ops G c ip' ax' dither_prog (Build_arr d' x') r) = Some y' ->
   zipw rsub (a_data y) x = zipw rsub (a_data y') x'.
 Proof.
-  intros c ip ip' ax ax' d d' x x' r y y' H H' L E E'.
-  rewrite dither_linear_l in E, E' by assumption.
+  intros c ip ip' ax ax' d d' x x' r y y' Fd Fd' H H' L E E'.
+  rewrite dither_linear_l in E, E' by assumption. rewrite rint_float in E, E' by assumption.
   injection E as <-. injection E' as <-. cbn [a_data].
   rewrite !zipw_sub_add by (now rewrite map_length, g_draw_length). now rewrite L.
 Qed.
 
 (* scaling the coefficient by a scales output - input by a *)
 Lemma dither_scales_l : forall a c ip ax d x r y ya,
-  axis_ok ax = true ->
+  is_float d = true -> axis_ok ax = true ->
   out_arr (run ring_ops G c ip ax dither_prog (Build_arr d x) r) = Some y ->
   out_arr (run ring_ops G (rmul a c) ip ax dither_prog (Build_arr d x) r) = Some ya ->
   zipw rsub (a_data ya) x = map (rmul a) (zipw rsub (a_data y) x).
 Proof.
-  intros a c ip ax d x r y ya H E E'.
-  rewrite dither_linear_l in E, E' by assumption.
+  intros a c ip ax d x r y ya Fd H E E'.
+  rewrite dither_linear_l in E, E' by assumption. rewrite rint_float in E, E' by assumption.
   injection E as <-. injection E' as <-. cbn [a_data].
   rewrite !zipw_sub_add by (now rewrite map_length, g_draw_length).
   rewrite map_map. apply map_ext. intros. ring.
@@ -326,7 +338,7 @@ End RingInst.
 
 (* the hypotheses are satisfiable: integers, a non-trivial signal *)
 Definition zgen : rngm Z Z := {| g_next := fun s k => s + 7 * Z.of_nat k; g_adv := fun s n => s + Z.of_nat n |}.
-Definition zops := ring_ops Z 0 Z.add Z.mul Z.sub.
+Definition zops := ring_ops Z 0 Z.add Z.mul Z.sub (fun z => z).
 
 Example preemph_example :
   out_arr (run zops zgen 3 false None preemph_prog (Build_arr I16 [5; 7; -2; 10]) 0)
